@@ -3,7 +3,7 @@ import os
 import shutil
 import tempfile
 
-from core import nats, natlists, opt, exc_kind
+from core import nats, natlists, opt, exc_kind, safe_check
 from props.c02 import bits
 
 PROPS = ('GambitV.Props.C05', 'GambitV.C05')
@@ -181,7 +181,7 @@ def run(ctx):
 	rconts = ['array', 'siglist', 'plain', 'hdf5']
 
 	def sub(case, tag):
-		lines, pf = check(ctx, case)
+		lines, pf = safe_check(check, ctx, case)
 		nt = case.pop('_nt', False)
 		ctx.submit(case, lines, nontrivial=nt, tags=[tag, f'rcont={case.get("rcont", case.get("cont"))}', f'threads={case.get("threads",1)}',
 		                                             f'chunk={"none" if case.get("chunk") is None else "set"}', f'out={case.get("out")}'], pyfails=pf)
